@@ -33,7 +33,7 @@ def gen_cases(tier, seed):
                       "nested": bool(k % 3 == 0), "stale_grads": bool(k % 4 == 3),
                       "refit": bool(k % 5 == 0), "raising_callback": bool(k % 4 == 1), "binary_logits": bool(k % 6 == 1),
                       "soft_targets": bool(k % 2 == 0), "bn_tracking_off": bool(k % 7 == 2), "test_under_no_grad": bool(k % 2 == 1),
-                      "no_accuracy": bool(k % 11 == 7), "zero_loss_batches": bool(k % 12 in (5, 11)), "custom_layer": bool(k % 5 == 3),   # (zero-loss batches: categorical mode, no extra loss term)
+                      "no_accuracy": bool(k % 11 == 7), "zero_loss_batches": bool(k % 12 in (5, 11)), "custom_layer": bool(k % 5 == 3), "frozen_block": bool(k % 7 == 5),   # (zero-loss batches: categorical mode, no extra loss term)
                       "seed": int(rng.integers(2 ** 31))})
     return cases
 
@@ -79,6 +79,13 @@ def run_case(ns, ctx, c):
     if c.get("nested"):
         # the stochastic / stateful layers sit two and three levels below the root
         layers = [layers[0], nn.Sequential(layers[1], layers[2], nn.Sequential(layers[3]))] + layers[4:]
+    frozen_block = None
+    if c.get("frozen_block") and not c.get("nested"):
+        # a pretrained feature extractor that is not trained further: its parameters are frozen, its mode-dependent layers follow train() / eval()
+        # like every other submodule (freezing parameters is not inference mode)
+        frozen_block = nn.Sequential(nn.Linear(F_, F_), nn.Dropout(0.3), nn.BatchNorm1d(F_))
+        frozen_block.freeze()
+        layers = [frozen_block] + layers
     model = nn.Sequential(*layers)
 
     def descendants(m, acc=None):
